@@ -28,16 +28,16 @@ type listPkg struct {
 type census map[string]int
 
 type rw struct {
-	fset   *token.FileSet
-	src    []byte
-	file   *token.File
-	info   *types.Info
-	two    map[ast.Node]bool // recv exprs in 2-value context
-	selN   int
-	cs     census
-	needV  map[string]bool // vrt, vtime, vctx
-	errs   []string
-	labels map[ast.Stmt]bool
+	fset    *token.FileSet
+	src     []byte
+	file    *token.File
+	info    *types.Info
+	two     map[ast.Node]bool // recv exprs in 2-value context
+	selN    int
+	cs      census
+	needV   map[string]bool // vrt, vtime, vctx
+	errs    []string
+	labels  map[ast.Stmt]bool
 	pkgPath string
 }
 
@@ -112,7 +112,7 @@ func isCtx(t types.Type) bool {
 }
 
 var timeSyms = map[string]bool{"Now": true, "Since": true, "Until": true, "After": true, "Sleep": true, "NewTimer": true, "NewTicker": true, "AfterFunc": true, "Tick": true, "Timer": true, "Ticker": true}
-var ctxSyms = map[string]bool{"WithCancel": true, "WithCancelCause": true, "WithTimeout": true, "WithDeadline": true, "Cause": true}
+var ctxSyms = map[string]bool{"AfterFunc": true, "WithCancel": true, "WithCancelCause": true, "WithTimeout": true, "WithDeadline": true, "Cause": true}
 
 func (r *rw) rewrite(n ast.Node) (string, bool) {
 	switch x := n.(type) {
@@ -281,9 +281,10 @@ func unparen(e ast.Expr) ast.Expr {
 }
 
 var importMap = map[string][2]string{
-	`"sync"`:        {"sync", `"verif.local/vrt/vsync"`},
-	`"sync/atomic"`: {"atomic", `"verif.local/vrt/vatomic"`},
-	`"math/rand"`:   {"rand", `"verif.local/vrt/vrand"`},
+	`"sync"`:                                 {"sync", `"verif.local/vrt/vsync"`},
+	`"sync/atomic"`:                          {"atomic", `"verif.local/vrt/vatomic"`},
+	`"math/rand"`:                            {"rand", `"verif.local/vrt/vrand"`},
+	`"github.com/siderolabs/gen/concurrent"`: {"concurrent", `"verif.local/vrt/vconcurrent"`},
 }
 
 func (r *rw) file2(f *ast.File) string {
